@@ -282,6 +282,9 @@ func Verif_C03_tree() {
 			verifAssert(has && v == req[j], "each :name is bound to the corresponding request segment")
 		}
 	}
+	// the bindings are those of the matched pattern: nothing bound while trying an
+	// alternative that was abandoned may survive in the result
+	verifAssert(len(res.Params) == nparams, "only the matched pattern's :names are bound (no binding of an abandoned alternative leaks)")
 	if !p.allLit {
 		verifAssert(!anyLit, "an all-literal matching pattern wins over patterns with parameters")
 	}
